@@ -10,7 +10,7 @@ once unless already done") of ``chain_future.copy`` and
 ``multi_future.callback``; every distinct child listened to once; results
 collected in input order; ``WaitIterator`` bookkeeping (FIFO of finished inputs,
 take-and-clear of the running future, one index entry consumed per delivered
-input); ``with_timeout`` shape.  Not
+input, one registration per distinct input); ``with_timeout`` shape.  Not
 decided: the quantifier over completion orders.
 """
 from __future__ import annotations
@@ -146,6 +146,9 @@ def check_multi(ck):
         ck.ob("C36.multi-listen", mf, c, len(lp) == 1, "the callback is registered inside the loop over all children, on the loop element")
         # the guard `x not in S` is read off the enclosing if-statements (the must-facts
         # rightly forget it once S.add(x) ran, which is exactly what has to happen before/after registering)
+        # the guard `x not in S` is read off the enclosing if-statements (the must-facts
+        # rightly forget it once S.add(x) ran, which is exactly what has to happen before/after registering)
+        seen = []
         pm = q.parent_map(mf.node)
         child = c
         for anc in q.ancestors(pm, c):
@@ -153,17 +156,19 @@ def check_multi(ck):
                 break
             if isinstance(anc, ast.If):
                 in_body = any(child is st_ or any(child is y for y in ast.walk(st_)) for st_ in anc.body)
-                for conj in q.split_conj(anc.test):
-                    t, pol = canon_fact(conj, in_body)
-                    if not t.startswith(x + " in "):
-                        raise AnalysisError("%s: registration guarded by an unrecognised condition" % mf.site(anc.test))
-                    s_ = t[len(x) + 4:]
-                    init = [st for st in q.stores_to(mf.node, s_) if isinstance(getattr(st, "value", None), ast.Call) and q.call_attr(st.value) == "set" and not st.value.args]
-                    if not init:
-                        raise AnalysisError("%s: membership guard on a collection that does not start empty" % mf.site(anc.test))
-                    ck.ob("C36.multi-listen", mf, anc.test, not pol, "a child is skipped only when it was already listened to (`x not in seen` guard on an initially empty set); every first occurrence is registered")
+                for conj in q.split_conj(anc.test) if in_body else []:
+                    t, pol = canon_fact(conj, True)
+                    if not pol and t.startswith(x + " in "):
+                        seen.append(t)
             child = anc
-    ck.note("multi_future's seen-set makes duplicated children harmless; this is outside the property (a *set* of inputs) and therefore not required by a rule")
+        ok = False
+        for t in seen:
+            s_ = t[len(x) + 4:]
+            adds = [a for l in lp for st in l.ast.body for a in ast.walk(st) if method_call_on(a, s_, "add") and len(a.args) == 1 and q.dotted(a.args[0]) == x]
+            init = [st for st in q.stores_to(mf.node, s_) if isinstance(getattr(st, "value", None), ast.Call) and q.call_attr(st.value) == "set" and not st.value.args]
+            if adds and init:
+                ok = True
+        ck.ob("C36.multi-listen", mf, c, ok, "a child is listened to only if it was not seen before, and is then recorded as seen (duplicates are listened to once, matching the set of unfinished children)")
     # loop cannot skip children
     from .c34 import _leaves_loop
     for l in loops:
@@ -339,7 +344,7 @@ def check_wait_iterator(ck):
             elif isinstance(g.iter, ast.Call) and isinstance(g.iter.func, ast.Attribute) and g.iter.func.attr == "items" and a_.kwarg and q.dotted(g.iter.func.value) == a_.kwarg.arg:
                 ok = q.dotted(dc.key) == second and q.dotted(dc.value) == first  # {f: k for k, f in kwargs.items()}
         ck.ob("C36.waititer", init, st, ok, "the index table maps each input future to its own position (enumerate(args), from 0) or keyword (kwargs.items())")
-    # registration: the callback is registered on every input
+    # registration: one callback per *distinct* input (the index table is keyed by future)
     loops = [nd for nd in init.cfg.stmt_nodes(lambda nd: nd.kind == "for") if isinstance(nd.ast.target, ast.Name)]
     regs = []
     for nd in loops:
@@ -347,14 +352,27 @@ def check_wait_iterator(ck):
             if isinstance(y, ast.Call) and q.call_attr(y) in ("future_add_done_callback", "add_done_callback") and any(q.dotted(a) == "self._done_callback" for a in y.args):
                 regs.append((nd, y))
     ck.floor("C36.waititer", len(regs), 1, "callback registrations in WaitIterator.__init__")
+    keyed = [s for s in q.stores_to(init.node, UNF) if isinstance(getattr(s, "value", None), ast.DictComp)]
+    from .c34 import _leaves_loop
     for nd, y in regs:
+        it = nd.ast.iter
         x = nd.ast.target.id
         on = q.dotted(y.args[0]) if q.call_attr(y) == "future_add_done_callback" else q.receiver(y)
         ck.ob("C36.waititer", init, y, on == x, "the callback is registered on the loop element")
-        from .c34 import _leaves_loop
         ck.ob("C36.waititer", init, nd.ast.iter, not _leaves_loop(nd.ast), "the registration loop visits every input")
-    ck.note("observation (outside the property, which quantifies over a *set* of inputs): WaitIterator registers its callback once per occurrence but indexes by future, "
-            "so a duplicated input (WaitIterator(f, f)) is delivered twice and the second delivery raises KeyError from _unfinished.pop; multi_future guards the same situation with a seen-set")
+        body_guard = [t for t in ast.walk(nd.ast) if isinstance(t, ast.Compare) and len(t.ops) == 1 and isinstance(t.ops[0], ast.NotIn) and q.dotted(t.left) == x]
+        distinct = (q.dotted(it) == UNF or method_call_on(it, UNF, "keys") or q.is_call(it, "set", "frozenset") or (isinstance(it, ast.Call) and q.dotted(it.func) == "dict.fromkeys") or bool(body_guard))
+        if distinct:
+            ck.ob("C36.waititer-distinct", init, it, True, "each distinct input is listened to once")
+            continue
+        src = q.dotted(it)
+        srcs = [s for s in q.stores_to(init.node, src)] if src else []
+        plain = src is not None and srcs and all(isinstance(s, (ast.Assign, ast.AnnAssign)) and (q.dotted(s.value) in init.params() or (q.is_call(s.value, "list") and s.value.args and isinstance(s.value.args[0], ast.Call) and q.call_attr(s.value.args[0]) == "values")) for s in srcs)
+        if not (plain and len(keyed) >= 1 and len(keyed) == len(q.stores_to(init.node, UNF))):
+            raise AnalysisError("%s: registration loop / index table in an unrecognised shape" % init.site(it))
+        ck.ob("C36.waititer-distinct", init, it, False,
+              "each distinct input must be listened to once: the index table %s is keyed by future (one entry per distinct input, consumed per delivery) but the callback is registered once per occurrence in %s" % (UNF, src),
+              construct="for v0 in %s: register(v0) vs index keyed by future" % src)
 
 
 def _last_def(ck, rel, name):
@@ -430,10 +448,11 @@ def run(ck):
     ck.rule("C36.settle", "every settle of an output future is under `not F.done()` or on a future created in the same function")
     ck.rule("C36.chain", "chain_future registers copy once on the source; copy settles/cancels the target exactly once unless it was done, with the source's own result/exception; an explicit cancelled path acts on the target")
     ck.rule("C36.multi", "multi_future: fresh output; settled by itself only for empty input; callback removes its child, settles the output only after the last child, and then always leaves it done")
-    ck.rule("C36.multi-listen", "every child is listened to: the callback is registered in a loop over all children that visits every element, skipping only already-seen ones")
+    ck.rule("C36.multi-listen", "each distinct child is listened to exactly once (seen-set guard inside the loop over all children, which visits every element)")
     ck.rule("C36.multi-order", "results are read from the ordered child list, appended in order; dict outputs zip list(children.keys()) with the result list")
     ck.rule("C36.waititer", "WaitIterator: finished inputs queued/delivered FIFO; one of deliver/queue per finished input; _return_result chains, consumes one index entry, takes-and-clears the running future; next() installs a fresh running future")
     ck.rule("C36.none-test", "optional values with legal falsy values (an exception object returned by exception(), the key list of a dict input) are compared with None by identity, never by truthiness")
+    ck.rule("C36.waititer-distinct", "WaitIterator registers its callback once per distinct input (the index table has one entry per distinct input)")
     ck.rule("C36.helpers", "the concurrent.py primitives the combinators rely on: *_unless_cancelled settle exactly when not cancelled; future_set_exc_info forwards exc_info[1]; future_add_done_callback calls at once only for a finished future, otherwise registers, exactly once")
     ck.rule("C36.with-timeout", "with_timeout chains input->result once, arms one timer with the timeout; the timer callback fails only a pending result, with TimeoutError")
 
@@ -490,6 +509,8 @@ MUTANTS = [
     ("copy forgets to copy a plain result", _in(C, "chain_future.<locals>.copy", replace_stmt(lambda st: isinstance(st, ast.Expr) and "set_result" in ast.unparse(st), lambda st: [ast.Pass()])), "C36.chain"),
     ("copy settles the source instead of the target", _in(C, "chain_future.<locals>.copy", replace_expr(lambda n: isinstance(n, ast.Call) and isinstance(n.func, ast.Attribute) and n.func.attr == "set_exception", lambda n: ast.Call(func=ast.Attribute(value=ast.Name(id="a", ctx=ast.Load()), attr="set_exception", ctx=ast.Load()), args=n.args, keywords=[]))), ("C36.chain", "C36.settle")),
     ("chain_future listens on the target", _in(C, "chain_future", replace_expr(lambda n: q.is_call(n, "future_add_done_callback"), lambda n: ast.Call(func=n.func, args=[ast.Name(id="b", ctx=ast.Load()), n.args[1]], keywords=[]))), "C36.chain"),
+    ("multi listens to duplicates twice (seen-set guard removed)", _in(G, "multi_future", replace_expr(lambda n: isinstance(n, ast.Compare) and isinstance(n.ops[0], ast.NotIn), lambda n: ast.Constant(value=True))), "C36.multi-listen"),
+    ("(after the F29 fix) WaitIterator registers per occurrence again", _in(G, "WaitIterator.__init__", lambda root: _iterate_plain(root)), "C36.waititer-distinct"),
     ("multi never listens (seen-set guard inverted)", _in(G, "multi_future", replace_expr(lambda n: isinstance(n, ast.Compare) and isinstance(n.ops[0], ast.NotIn), lambda n: ast.Compare(left=n.left, ops=[ast.In()], comparators=n.comparators))), "C36.multi-listen"),
     ("multi listens only to the first child (break after registering)", _in(G, "multi_future", replace_stmt(lambda st: isinstance(st, ast.Expr) and "future_add_done_callback" in ast.unparse(st), lambda st: [st, ast.Break()])), "C36.multi-listen"),
     ("multi reads results from the set (arbitrary order)", _in(G, "multi_future.<locals>.callback", replace_expr(lambda n: isinstance(n, ast.Name) and n.id == "children_futs" and isinstance(n.ctx, ast.Load), lambda n: ast.Name(id="listening", ctx=ast.Load()))), "C36.multi-order"),
@@ -530,5 +551,13 @@ def _drop_else(root):
             i = root.body.index(st)
             root.body[i + 1:i + 1] = st.orelse
             st.orelse = []
+            return True
+    return False
+
+
+def _iterate_plain(root):
+    for n in ast.walk(root):
+        if isinstance(n, ast.For) and "_done_callback" in ast.unparse(n) and ast.unparse(n.iter) != "futures":
+            n.iter = ast.Name(id="futures", ctx=ast.Load())
             return True
     return False
